@@ -221,6 +221,26 @@ ADDED3 = {
  "C19": "Round 8: CoordinateSystem.num_voxels folded on every call of the Patches constructor: each length is divided by the voxel size of its own axis, no absolute tolerance (C19.d); per-axis quantities stay per axis (C19.e).",
  "C20": "Round 8 (level other): the layout fold also runs with one trailing payload axis; Patches / num_voxels axis pairing (shared C19.d); Image.slice folded (C20.c).",
 }
+# rules added in round 9 and the evidence policy (DESIGN.md 7.14); appended after ADDED3
+ADDED4 = {
+ "C01": "Round 9: a typed-voxel conversion (make_voxel) applied to a position that is not yet rounded is a named contradiction of C01.b.",
+ "C02": "Round 9: the lower bound of a point-defined box is clipped at 0 before slice.indices() (named contradiction on the folded term).",
+ "C03": "Round 9: the image stand-in of the integrate fold carries metadata tokens -- an integral that mentions one reads the image's own metadata; every cv2.resize of the voxel volumes is INTER_AREA on every path (C03.h); the state engine justifies a read in a helper at the helper's call sites.",
+ "C04": "Round 9: rules run under ctx.guard, so the scale lint (C04.i) reports even when another rule cannot be evaluated.",
+ "C05": "Round 9: the value of `weighted` in force at the transport_density calls that feed the distance and the reported density is the constant True (C05.b).",
+ "C06": "Round 9: scale lint on utils/fv.py and utils/grid.py (C06.g); a whole row / column of the tensor in place of the entry (o, o) is a named contradiction (C06.d).",
+ "C09": "Round 9: a parameter of set_parameters re-bound to a value-changing function of itself (np.clip, abs, round ...) is a named contradiction (C09.g); the warped array is not kept on the correction object (shared C10.f).",
+ "C10": "Round 9: no test inside the loop over `transformations` reads the entry's own state (C10.e); callee effect summaries are specialised on the boolean flags the caller hands on.",
+ "C11": "Round 9: the paste warp of superpose pads with zeros (C11.f); np.tile with a literal reps tuple is a named contradiction of the extrusion rule (C11.a).",
+ "C12": "Round 9: swatches are fitted as given -- no find_balance re-binds them to an arithmetic function of themselves (C12.g); every stored balance comes from an optimiser / least-squares solve (C12.b).",
+ "C13": "Round 9: hidden-state analysis of find_cleaning_filter: the filter learnt now does not contain the one learnt before (C13.f).",
+ "C14": "Round 9: arrays that receive masked stores of model values are not allocated with the signal's dtype (C14.m); C14.j decided by folding setup_kernel_problem (helpers followed).",
+ "C15": "Round 9: a kind of `order` the source admits beyond integers and 'max' (a sequence) is folded for sample tuples and held to the same exactness -- or the check is undecided.",
+ "C16": "Round 9: an attribute of a shared default solver instance is set on every call or never (C16.c).",
+ "C18": "Round 9: a module-/class-level memo whose value is read from a file is not a function of its key (state lint).",
+ "C19": "Round 9: C19.d / C19.e always fold the real constructor (3 x 4 patches for the per-axis lists); statement-wise folds replace what a skipped statement binds by an `unknown` stand-in.",
+}
+POLICY = " Verdict policy, enforced mechanically since DESIGN.md 7.14: a failed obligation is a VIOLATION only with positive evidence -- stated explicitly by the rule, or by the table of value / dataflow rules in sa/evidence_rules.py; every other failed obligation is undecided (exit 2, no VIOLATION line)."
 GENERIC2 = " For every property: no default-argument object is modified in place, and optional parameters (default None) of the anchored modules are compared with None, never tested by truth value."
 
 NOT_YET = {}
@@ -232,7 +252,7 @@ def main():
         pid = p["id"]
         if pid in CLAIMED:
             cat, tech, text, note = CLAIMED[pid]
-            text = text + (" " + ADDED[pid] if pid in ADDED else "") + (" " + ADDED2[pid] if pid in ADDED2 else "") + (" " + ADDED3[pid] if pid in ADDED3 else "") + COMMON + GENERIC2
+            text = text + (" " + ADDED[pid] if pid in ADDED else "") + (" " + ADDED2[pid] if pid in ADDED2 else "") + (" " + ADDED3[pid] if pid in ADDED3 else "") + (" " + ADDED4[pid] if pid in ADDED4 else "") + COMMON + GENERIC2 + POLICY
             checks.append({
                 "property_id": pid,
                 "quick_cmd": f"./check {pid} --tier quick",
